@@ -39,19 +39,50 @@
    leave the valuate stage of the balance command's pipeline, with the validity of the posting
    accounts as the only side condition).
 
-   PARTIAL (C03_windowed_partial): DESIGN.md section 7 states the window on the report,
+   ON THE RENDERED REPORT (second half of this file; Proofs/MarkToMarketReport.v, MarkToMarketWindow.v,
+   MarkToMarketJournal.v, MarkToMarketFinal.v, MarkToMarketRow.v; vocabulary
+   Spec/MarkToMarketReportSpec.v).  DESIGN.md section 7 states the window on the report,
 
      Theorem C03_windowed : is_AL a -> run_balance cfg J = Ok r ->
        | value_cell r a col - (sum_c Q_T(a,c) * p_T(c) - sum_c Q_s(a,c) * p_s(c)) | <= n_steps * 10^-8
 
-   with T the last journal day <= col, s the last journal day before the window.  Proved is the
-   statement on the days that leave the Valuate stage, per commodity (the sum over c is a finite
-   sum of the per-cell statements).  Not proved: that the cell of the rendered report is the sum of
-   those posted values (Filter drops the days before the window, CloseAccounts adds postings on
-   non-A/L accounts only, Query/Report add exactly (C01/C02/C17)), and that the builder's days
-   carry the journal's declarations (Spec.ValuationSpec.price_on on directives = PriceDaySpec.price_on
-   on days).  Those links are decided on every run by evaluating Spec.ValuationSpec.mtm_row /
-   within_bound on the binary's output and by the byte-exact correspondence of the model. *)
+   with T the last journal day <= col, s the last journal day before the window.  Proved, for
+   Cli.balance_report on the syntax-level directives of the loaded files, every valuation commodity,
+   window, interval, --last, with and without --close:
+   * C03_report_cells (the valued analogue of C02_cells): the tree cell (a, col, c) of an
+     asset/liability account = the sum of the values Valuate posted on (a, c) inside the window and
+     attributed to col.  Filter drops whole days; CloseAccounts adds transactions between accounts
+     that are neither assets nor liabilities only; Query/Report add exactly.
+   * C03_windowed_cell (one commodity c <> V), C03_windowed_valuation_commodity (c = V: exact),
+     C03_windowed (any list of commodities: the row), C03_windowed_expected (the row against
+     Spec.ValuationSpec.mtm_expected, the decimal the runtime check computes),
+     C03_mark_to_market_report (nothing booked before the window: value = Q_T p_T).
+     Quantities and prices are those of Spec/ValuationSpec.v on the directives (qty_upto: bookings
+     dated <= T; price_on: the declarations dated <= T in date order, journal order within a day,
+     inserted and normalised: C12); the builder's days carry exactly these
+     (C03_days_quantity_is_journal_quantity, C03_days_price_is_journal_price: the stable sort by
+     date of the specification = the order of the days).  n_steps is a closed form of the input:
+     bookings of the cell in the window + journal days in the window (+ period starts with
+     --close) per commodity other than V (cell_steps, row_steps): an upper bound of the
+     contributing Multiply calls.
+   Side conditions of these theorems: postings_syntactic dl (what the parser guarantees for
+   account names, as in C02/C04/C05: C03_syntactic_sufficient; account_ok on posting accounts is
+   discharged from it, the value-zero condition by the builder); account_ok a; the account is
+   shown as itself (shows_account: no mapping rule or remap moves it or another account onto it;
+   other accounts may be shortened, swapped or hidden; true without --mapping and --remap,
+   C03_shows_account_plain) and passes the --account/--commodity filters; the window is not empty and col is a period end.
+
+   NOT PROVED (decided on every run by evaluating mtm_row / within_bound on the binary's output and
+   by the byte-exact correspondence of the model):
+   * the printed row: that the renderer's collapsed line of a valued row is the sum over the
+     commodity keys of the node and the cumulative presentation over the columns (C02_row_cumulative
+     gives the latter per key); value_cell here is the sum of the tree's cells;
+   * rows aggregated by --mapping / swapped by --remap (the sum over the accounts mapped onto a row;
+     accounts shown as themselves are covered whatever happens to the other accounts);
+   * the tighter step count Spec.ValuationSpec.step_bound (a revaluation only on days with a price
+     declaration); row_steps counts every journal day in the window;
+   * that mtm_expected is Some whenever the run succeeds (C03_held_has_price gives it for the last
+     day of the run). *)
 From Coq Require Import ZArith QArith Qabs List Bool.
 From Knut Require Import Model.Str Model.Dec Model.Account Model.Ledger Model.Price Model.Journal Model.Check Model.Pipeline
      Spec.WellformedSpec Spec.MarkToMarketSpec Spec.PriceDaySpec
@@ -231,9 +262,9 @@ Theorem C03_positions_stay_wellformed : forall v ds s s' ds',
 Proof. exact days_entries_ok. Qed.
 Print Assumptions C03_positions_stay_wellformed.
 
-(* the window: the value posted on the days after the first |ds1| is the change of the market
-   value between the end of ds1 and the end of the run.  (Full statement on the report's cells:
-   see the header; this is its part on the days leaving the stage.) *)
+(* the window on the days leaving the stage: the value posted on the days after the first |ds1| is
+   the change of the market value between the end of ds1 and the end of the run.  (The statement
+   on the report's cells is C03_windowed / C03_windowed_cell below.) *)
 Theorem C03_windowed_partial : forall v a c ds1 ds2 s' out,
   account_ok a = true -> is_AL a = true -> c <> v ->
   Forall posting_in_ok (days_postings (ds1 ++ ds2)) ->
@@ -294,3 +325,181 @@ Proof.
   do 4 eexists. split; [vm_compute; reflexivity|]. split; [vm_compute; reflexivity|].
   repeat split; vm_compute; reflexivity.
 Qed.
+
+(* ================================================================== on the rendered report *)
+(* Vocabulary: Spec/MarkToMarketReportSpec.v (cum_cell, row_value: the report side; mv_cell, mv_row,
+   cell_steps, row_steps: the journal side, on the directives as loaded) and Spec/ValuationSpec.v
+   (price_on, qty_upto, market_value, mtm_expected: what the runtime check evaluates). *)
+From Knut Require Import Model.Date Model.Report Model.Cli Spec.LedgerSpec Spec.LedgerSyntax Spec.MarkToMarketReportSpec
+     Proofs.LedgerProofs Proofs.MarkToMarketReport Proofs.MarkToMarketWindow Proofs.MarkToMarketJournal
+     Proofs.MarkToMarketFinal Proofs.MarkToMarketRow.
+From Knut Require Spec.ValuationSpec.
+
+(* the valued analogue of C02_cells: the cell of an asset/liability account a (tree node a, column
+   col, commodity c) of a valued balance report holds the sum of the values the Valuate stage put
+   on the postings of (a, c) dated inside the window and attributed to that column -- with and
+   without --close (the closing transactions book between accounts that are neither assets nor
+   liabilities), for every window, interval, --last *)
+Theorem C03_report_cells : forall cfg ds r part V,
+  bc_valuation cfg = Some V ->
+  balance_report cfg ds = COk (r, part) ->
+  exists dl dsP dsV,
+    parse_directives ds = MOk dl /\
+    new_partition (clip (mkPeriod (bc_from cfg) (bc_to cfg)) (journal_period dl)) (bc_interval cfg) (bc_last cfg) = POk part /\
+    valued_run cfg V dl part dsP dsV /\
+    (postings_syntactic dl ->
+     forall a c col, account_ok a = true -> is_AL a = true -> shows_account cfg a -> cfg_where cfg a c = true ->
+       rcell a (Some col, Some c) r ==
+       LedgerProofs.qsum (fun dp => if in_span (span part) (fst dp) && in_col (periods part) col (fst dp) then cval a c dp else 0)
+                         (LedgerProofs.days_postings dsV)).
+Proof. exact valued_report_cells. Qed.
+Print Assumptions C03_report_cells.
+
+(* THE WINDOW, per commodity (DESIGN.md section 7 C03_windowed, one summand of the sum over c):
+   for a journal as loaded (ds: the syntax-level directives of all files), any configuration with a
+   valuation commodity V, and the report r the balance command builds:
+     | cells of (a, c) cumulated up to the period end col  -  (Q_col p_col - Q_s p_s) |  <=  n * 10^-8
+   Q_T = exact sum of the bookings of (a, c) dated <= T (ValuationSpec.qty_upto), p_T = price of c
+   in V from the declarations dated <= T, inserted in date order and normalised
+   (ValuationSpec.price_on: C12), s = the day before the window, n = bookings of (a, c) in the
+   window + days of the journal in the window (+ the period starts with --close): an upper bound
+   of the Multiply calls that contribute.
+   Side conditions: the parser's guarantee on account names (postings_syntactic, implied by
+   WellformedSpec.syntactic: C03_syntactic_sufficient); the account is shown as itself
+   (shows_account: holds without --mapping/--remap, C03_shows_account_plain) and passes the
+   --account/--commodity filters; the window is not empty; col is one of the report's columns. *)
+Theorem C03_windowed_cell : forall cfg ds r part V,
+  bc_valuation cfg = Some V ->
+  balance_report cfg ds = COk (r, part) ->
+  exists dl,
+    parse_directives ds = MOk dl /\
+    new_partition (clip (mkPeriod (bc_from cfg) (bc_to cfg)) (journal_period dl)) (bc_interval cfg) (bc_last cfg) = POk part /\
+    (postings_syntactic dl ->
+     forall a c col, account_ok a = true -> is_AL a = true -> shows_account cfg a -> cfg_where cfg a c = true -> c <> V ->
+       (p_start (span part) <= p_end (span part))%Z -> In col (end_dates part) ->
+       Qabs (cum_cell a c part col r
+             - (mv_cell dl V a c col - mv_cell dl V a c (p_start (span part) - 1)))
+         <= inject_Z (cell_steps cfg dl part a c col) * (1 # 100000000)).
+Proof. exact windowed_report. Qed.
+Print Assumptions C03_windowed_cell.
+
+(* the valuation commodity itself is carried at its quantity: no Multiply, no error *)
+Theorem C03_windowed_valuation_commodity : forall cfg ds r part V,
+  bc_valuation cfg = Some V ->
+  balance_report cfg ds = COk (r, part) ->
+  exists dl,
+    parse_directives ds = MOk dl /\
+    new_partition (clip (mkPeriod (bc_from cfg) (bc_to cfg)) (journal_period dl)) (bc_interval cfg) (bc_last cfg) = POk part /\
+    (postings_syntactic dl ->
+     forall a col, account_ok a = true -> is_AL a = true -> shows_account cfg a -> cfg_where cfg a V = true ->
+       (p_start (span part) <= p_end (span part))%Z -> In col (end_dates part) ->
+       cum_cell a V part col r == mv_cell dl V a V col - mv_cell dl V a V (p_start (span part) - 1)).
+Proof. exact windowed_report_V. Qed.
+Print Assumptions C03_windowed_valuation_commodity.
+
+(* THE WINDOW, the whole row (DESIGN.md C03_windowed): a valued row adds up the commodities of the
+   account; over any list of commodities (that pass the filters)
+     | sum_c cells(a, c, <= col)  -  (sum_c Q_col p_col - sum_c Q_s p_s) |  <=  n_steps * 10^-8 *)
+Theorem C03_windowed : forall cfg ds r part V,
+  bc_valuation cfg = Some V ->
+  balance_report cfg ds = COk (r, part) ->
+  exists dl,
+    parse_directives ds = MOk dl /\
+    new_partition (clip (mkPeriod (bc_from cfg) (bc_to cfg)) (journal_period dl)) (bc_interval cfg) (bc_last cfg) = POk part /\
+    (postings_syntactic dl ->
+     forall a col coms, account_ok a = true -> is_AL a = true -> shows_account cfg a ->
+       (forall c, In c coms -> cfg_where cfg a c = true) ->
+       (p_start (span part) <= p_end (span part))%Z -> In col (end_dates part) ->
+       Qabs (row_value a part col r coms
+             - (mv_row dl V a col coms - mv_row dl V a (p_start (span part) - 1) coms))
+         <= inject_Z (row_steps cfg dl part V a col coms) * (1 # 100000000)).
+Proof. exact windowed_row. Qed.
+Print Assumptions C03_windowed.
+
+(* ... against the number the runtime check computes (Spec.ValuationSpec.mtm_expected, exact
+   decimals): over the commodities the account holds *)
+Theorem C03_windowed_expected : forall cfg ds r part V,
+  bc_valuation cfg = Some V ->
+  balance_report cfg ds = COk (r, part) ->
+  exists dl,
+    parse_directives ds = MOk dl /\
+    new_partition (clip (mkPeriod (bc_from cfg) (bc_to cfg)) (journal_period dl)) (bc_interval cfg) (bc_last cfg) = POk part /\
+    (postings_syntactic dl ->
+     forall a col e, account_ok a = true -> is_AL a = true -> shows_account cfg a ->
+       (forall c, cfg_where cfg a c = true) ->
+       (p_start (span part) <= p_end (span part))%Z -> In col (end_dates part) ->
+       ValuationSpec.mtm_expected dl V a (p_start (span part)) col = Some e ->
+       let coms := ValuationSpec.held_commodities (flat_postings dl) a in
+       Qabs (row_value a part col r coms - dvalue e)
+         <= inject_Z (row_steps cfg dl part V a col coms) * (1 # 100000000)).
+Proof. exact windowed_row_expected. Qed.
+Print Assumptions C03_windowed_expected.
+
+Theorem C03_market_value_sum : forall dl V a T x,
+  ValuationSpec.market_value dl V a T = Some x ->
+  dvalue x == mv_row dl V a T (ValuationSpec.held_commodities (flat_postings dl) a).
+Proof. exact market_value_sum. Qed.
+Print Assumptions C03_market_value_sum.
+
+(* the corollary of DESIGN.md for windows that cover the bookings of the position (the default
+   window starts at the first transaction): the value shown is quantity * latest price *)
+Theorem C03_mark_to_market_report : forall cfg ds r part V,
+  bc_valuation cfg = Some V ->
+  balance_report cfg ds = COk (r, part) ->
+  exists dl,
+    parse_directives ds = MOk dl /\
+    new_partition (clip (mkPeriod (bc_from cfg) (bc_to cfg)) (journal_period dl)) (bc_interval cfg) (bc_last cfg) = POk part /\
+    (postings_syntactic dl ->
+     forall a c col, account_ok a = true -> is_AL a = true -> shows_account cfg a -> cfg_where cfg a c = true -> c <> V ->
+       (p_start (span part) <= p_end (span part))%Z -> In col (end_dates part) ->
+       no_booking_before dl a c (p_start (span part)) ->
+       Qabs (cum_cell a c part col r - mv_cell dl V a c col)
+         <= inject_Z (cell_steps cfg dl part a c col) * (1 # 100000000)).
+Proof. exact mark_to_market_report. Qed.
+Print Assumptions C03_mark_to_market_report.
+
+(* the links between the two vocabularies: quantities and prices read off the builder's days
+   (C03_mark_to_market, C03_windowed_partial above) are those of the directives *)
+Theorem C03_days_quantity_is_journal_quantity : forall close dl part a c T,
+  qty_on_days a c (built_days close dl part) T == dvalue (ValuationSpec.qty_upto (flat_postings dl) a c T).
+Proof. exact qty_on_days_journal. Qed.
+Print Assumptions C03_days_quantity_is_journal_quantity.
+
+Theorem C03_days_price_is_journal_price : forall close dl part V c T, c <> V ->
+  price_on_days V c (built_days close dl part) T = price_q (ValuationSpec.price_on dl V c T).
+Proof. exact price_on_days_journal. Qed.
+Print Assumptions C03_days_price_is_journal_price.
+
+(* the side conditions *)
+Theorem C03_shows_account_plain : forall cfg a, bc_mapping cfg = [] -> bc_remap cfg = [] -> shows_account cfg a.
+Proof. exact shows_account_plain. Qed.
+Print Assumptions C03_shows_account_plain.
+
+Theorem C03_syntactic_sufficient : forall ds dl,
+  (forall dl', parse_directives ds = MOk dl' -> syntactic dl') -> parse_directives ds = MOk dl -> postings_syntactic dl.
+Proof. exact syntactic_loaded. Qed.
+Print Assumptions C03_syntactic_sufficient.
+
+(* Both sides evaluated on a valued, windowed report with --close (Proofs/MarkToMarketFinal.v
+   exr_journal): Assets:B buys 1.5 A on 2021-03-01 and 0.3 A on 03-03; A costs 1.23456789 C on
+   03-01, 2.00000001 C on 03-02, 3.33333333 C on 03-04; daily columns over 03-02 .. 03-04, so the
+   first purchase lies before the window.  Column 03-02: 1.14814818 = 1.5 * (2.00000001 -
+   1.23456789) exactly.  Column 03-04: the report shows 4.14814815, the closed form gives
+   1.8 * 3.33333333 - 1.5 * 1.23456789 = 4.148148159; difference 9e-9 <= 7e-8. *)
+Example C03_example_windowed_report :
+  match balance_report (exr_cfg true) exr_journal, parse_directives exr_journal with
+  | COk (r, part), MOk dl =>
+    let W := p_start (span part) in
+    let col1 := (exr_d0 + 1)%Z in let col3 := (exr_d0 + 3)%Z in
+    postings_syntactic_b dl = true /\ account_ok exr_a = true /\ is_AL exr_a = true /\
+    cfg_where (exr_cfg true) exr_a exr_c = true /\ exr_c <> exr_V /\
+    end_dates part = [col1; (exr_d0 + 2)%Z; col3] /\ W = col1 /\
+    Qred (cum_cell exr_a exr_c part col1 r) = 57407409 # 50000000 /\
+    Qred (mv_cell dl exr_V exr_a exr_c col1 - mv_cell dl exr_V exr_a exr_c (W - 1)) = 57407409 # 50000000 /\
+    Qred (cum_cell exr_a exr_c part col3 r) = 82962963 # 20000000 /\
+    Qred (mv_cell dl exr_V exr_a exr_c col3 - mv_cell dl exr_V exr_a exr_c (W - 1)) = 4148148159 # 1000000000 /\
+    cell_steps (exr_cfg true) dl part exr_a exr_c col3 = 7%Z /\
+    ValuationSpec.mtm_expected dl exr_V exr_a W col3 = Some (mkDec 4148148159 (-9))
+  | _, _ => False
+  end.
+Proof. vm_compute. repeat split; discriminate. Qed.
